@@ -750,6 +750,53 @@ static void random_run(const char *cmpname, unsigned long seed, unsigned int uni
 
 /* n keys inserted in key order with nothing in between leave one chain as deep as the set; then the operations that have to
  * reach its far end: find / lower / remove of the first and of the last keys, replacement of an equal key, and again after each. */
+/* deepclear: n keys inserted in key order and NOTHING looked up in between - the tree is one chain as deep as the set - then the
+ * set is cleared (what the daemon does with its request table at end of input when every request is still pending), twice. */
+static void deepclear_run(unsigned int n, int descending)
+{
+    struct universe *u = &U_int;
+    struct set *s = set_alloc(u->cmp, elem_cleanup);
+    struct model m;
+    unsigned int kk, round;
+    char ctx[96];
+
+    memset(&m, 0, sizeof(m));
+    keypool = malloc(n * sizeof(keypool[0]));
+    keypool_n = n;
+    for (kk = 0; kk < n; ++kk)
+        keypool[kk] = (long long)kk * 2 - n;
+    for (round = 0; round < 2; ++round) {
+        if (m.cap < n) {
+            m.cap = n;
+            m.v = realloc(m.v, m.cap * sizeof(m.v[0]));
+        }
+        for (kk = 0; kk < n; ++kk) {
+            /* (the model's sorted array is filled in place: inserting at its front would move the whole array every time) */
+            unsigned int at = descending ? n - 1 - kk : kk;
+            struct set_node *nd = elem_new(keypool[at]);
+            struct elem *e = set_node_data(nd);
+            u->setkey(e, keypool[at], kk & 255);
+            m.v[at] = e;
+            linked[e->id] = 1;
+            in_set_call = 1;
+            set_insert(s, nd);
+            in_set_call = 0;
+            n_ops++;
+        }
+        m.n = n;
+        snprintf(ctx, sizeof(ctx), "deepclear n=%u round %u", n, round);
+        if (set_size(s) != m.n)
+            viol("size", "%s: set_size=%u model=%u", ctx, set_size(s), m.n);
+        keep_removed = 0;
+        do_clear(s, &m, u, 0, "deepclear-clear");
+        if (set_size(s) != 0)
+            viol("size", "deepclear n=%u: %u elements after clear", n, set_size(s));
+    }
+    free(s);
+    free(keypool);
+    free(m.v);
+}
+
 static void fill_run(const char *cmpname, unsigned int n, int descending)
 {
     struct universe *u = !strcmp(cmpname, "int") ? &U_int : !strcmp(cmpname, "voidp") ? &U_voidp : &U_str;
@@ -871,6 +918,8 @@ int main(int argc, char *argv[])
         explore(n);
     } else if (argc >= 6 && !strcmp(argv[1], "random")) {
         random_run(argv[2], strtoul(argv[3], NULL, 10), (unsigned)atoi(argv[4]), strtoul(argv[5], NULL, 10));
+    } else if (argc >= 4 && !strcmp(argv[1], "deepclear")) {
+        deepclear_run((unsigned)atoi(argv[2]), atoi(argv[3]));
     } else if (argc >= 5 && !strcmp(argv[1], "fill")) {
         fill_run(argv[2], (unsigned)atoi(argv[3]), atoi(argv[4]));
     } else if (argc >= 2 && !strcmp(argv[1], "laws")) {
